@@ -5,6 +5,7 @@ import GufoSnmp.Model.Socket
 import GufoSnmp.Model.PyClient
 import GufoSnmp.Model.Timing
 import GufoSnmp.Model.User
+import GufoSnmp.Model.Pool
 import GufoSnmp.Model.Crypto.Md5
 import GufoSnmp.Model.Crypto.Sha1
 import GufoSnmp.Model.Crypto.Des
@@ -164,6 +165,30 @@ def cmdBuf (ops : String) : String :=
   | some rs => "ok " ++ ";".intercalate rs
   | none => if isBmPanic then "PANIC" else bad
 
+/-- `pool a;w0:hex;d0;...` -/
+def cmdPool (ops : String) : String :=
+  let parse (op : String) : Option PoolOp :=
+    if op = "a" then some .acquire
+    else if op.startsWith "d" then (parseNat (op.drop 1).toString).map PoolOp.drop
+    else if op.startsWith "w" then
+      match (op.drop 1).toString.splitOn ":" with
+      | [k, h] => match parseNat k, parseHex h with
+        | some k, some h => some (.write k h)
+        | _, _ => none
+      | _ => none
+    else none
+  let rec all : List String → Option (List PoolOp)
+    | [] => some []
+    | o :: more => match parse o, all more with
+      | some x, some xs => some (x :: xs)
+      | _, _ => none
+  match all (ops.splitOn ";") with
+  | none => bad
+  | some l =>
+    match ({} : PoolState).run l with
+    | some rs => "ok " ++ ";".intercalate rs
+    | none => bad
+
 def cmdTopy (op : String) (i : Bytes) : String :=
   match pduTryFrom i with
   | .ok pdu =>
@@ -293,6 +318,7 @@ def handle (line : String) : String :=
   | ["cmparcs", a, b] => withHex a (fun a => withHex b (fun b =>
       s!"ok {match cmpArcs a b with | .lt => "lt" | .eq => "eq" | .gt => "gt"}"))
   | ["buf", ops] => cmdBuf ops
+  | ["pool", ops] => cmdPool ops
   | ["session", cfg, evs] => cmdSession cfg evs
   | ["p2m", a, pw] =>
     match parseAlgName a, parseHex pw with
